@@ -1,6 +1,7 @@
 import XmppModel.Model.Negotiate
 import XmppModel.Lemmas.Negotiate
 import XmppModel.Lemmas.NegotiateReach
+import XmppModel.Generated.C04
 /-!
 # C04 — session establishment fails closed under faults
 
@@ -13,6 +14,18 @@ namespace XmppModel.Props.C04
 open XmppModel XmppModel.Negotiate
 
 variable {C : List Feature} {O : Oracle} {st0 : St} {script : List Peer} {picks : List FName}
+
+/-- tie to the source: what the real `negotiateSession` does with the result of a negotiator
+call, for every kind of result (mask with/without `Ready`, new ReadWriter or not, error or
+not, context cancelled during the call or not): an error or a cancelled context ends the
+session with an error, without applying the mask and without a further call (the `ret` step
+of the model); otherwise the mask is applied and the loop goes on until `Ready` -/
+theorem C04_gen_loop : ∃ t, Generated.C04.loopTable = some t ∧
+    ∀ r ∈ t, match r with
+      | (maskReady, _restart, fail, cancelled, failed, ready, applied, calls) =>
+        if fail || cancelled then failed = true ∧ ready = false ∧ applied = false ∧ calls = 1
+        else failed = false ∧ ready = true ∧ applied = true ∧ calls = (if maskReady then 1 else 2) :=
+  ⟨_, rfl, by decide⟩
 
 /-- **a nil error only for a clean run**: if session establishment reports success, every
 executed step — every read, every write, every `List`, `Parse` and `Negotiate` callback —
